@@ -289,20 +289,35 @@ func c17R2(e *Engine) {
 func (e *Engine) literalFieldsOf(role string, typeNames ...string) map[string]map[string]bool {
 	out := map[string]map[string]bool{}
 	p := e.Pkgs[role]
+	// output mappers: functions that take a value of minidyn's internal description types – and the package-local
+	// constructors they build their results with
+	isMapper := func(fd *ast.FuncDecl) bool {
+		for _, prm := range fd.Type.Params.List {
+			if tv, ok := p.TypesInfo.Types[prm.Type]; ok && strings.Contains(types.TypeString(tv.Type, nil), modPath+"/types.") {
+				return true
+			}
+		}
+		return false
+	}
+	helperDecls := map[ast.Node]bool{}
+	for _, fn := range e.funcs(role) {
+		fd, ok := fn.Syntax().(*ast.FuncDecl)
+		if !ok || fd.Type.Params == nil || !isMapper(fd) {
+			continue
+		}
+		for g := range e.reach(fn) {
+			if e.fnRole(g) == role && g.Syntax() != nil {
+				helperDecls[g.Syntax()] = true
+			}
+		}
+	}
 	for _, file := range p.Syntax {
 		for _, d := range file.Decls {
 			fd, isFn := d.(*ast.FuncDecl)
 			if !isFn || fd.Type.Params == nil {
 				continue
 			}
-			// only output mappers: functions that take a value of minidyn's internal description types
-			internal := false
-			for _, prm := range fd.Type.Params.List {
-				if tv, ok := p.TypesInfo.Types[prm.Type]; ok && strings.Contains(types.TypeString(tv.Type, nil), modPath+"/types.") {
-					internal = true
-				}
-			}
-			if !internal {
+			if !isMapper(fd) && !helperDecls[fd] {
 				continue
 			}
 			inspectLits(p.TypesInfo, fd, typeNames, out)
